@@ -1040,6 +1040,10 @@ def search_broken_keyword(ck: Check) -> None:
                 oracle_doc(ck, camp, doc, st, "contype")
             doc, _f, _c = semfam.nullable_doc(rng.fork(f"n{i}"), i)
             oracle_doc(ck, camp, doc, "v2", "contype")
+            # keywords next to anyOf/oneOf (a broken sem.trsib / sem.valid on (sib …) shows there)
+            doc, _f, sinsts, smuts = semfam2.sibling_union_doc(rng.fork(f"s{i}"), i)
+            for st, r in (("v2", "contype"), ("v1", "contype"), ("v2", "field")):
+                oracle_doc(ck, camp, doc, st, r, sinsts, smuts)
             from ..runner import match_finding
 
             if any(match_finding(ck.findings, f.classification) is None for f in ck.failures):
